@@ -559,7 +559,6 @@ func (f *memFile) Readdir(count int) ([]os.FileInfo, error) {
 		}
 	} else {
 		f.pos = len(f.childrenSnapshot)
-		old = 0
 	}
 	return f.childrenSnapshot[old:f.pos], nil
 }
